@@ -75,14 +75,23 @@ pub fn run(args: &Args) -> i32 {
     let enc = TextEncoding::UnicodeCodePoint;
     let cap = if args.thorough() { 64 } else { 16 };
     let mut models = vec![];
-    for (theme, bname, edits, merges) in super::history_configs(if args.thorough() { 1 } else { 0 }) {
-        let mut h = History::new(theme, bname, enc, &edits, merges);
+    let mut cfgs: Vec<(&str, &str, Vec<u8>, u8, u8)> = super::history_configs(if args.thorough() { 1 } else { 0 }).into_iter().map(|(t, b, e, m)| (t, b, e, m, 0u8)).collect();
+    // with "actor churn" (see world.rs): historical reads after the actor table was rewritten
+    if args.thorough() {
+        cfgs.extend(super::history_configs(0).into_iter().map(|(t, b, e, m)| (t, b, e, m, 1u8)));
+    } else {
+        cfgs.push(("map", "B2", vec![1, 1], 1, 1));
+        cfgs.push(("text", "B2", vec![1, 1], 1, 1));
+    }
+    for (theme, bname, edits, merges, churn) in cfgs {
+        let mut h = History::new(theme, bname, enc, &edits, merges).with_churn(churn);
         let b = base(bname, enc);
         let base_hashes: BTreeSet<ChangeHash> = b.get_changes(&[]).iter().map(|c| c.hash()).collect();
         let seen: Mutex<HashSet<Vec<String>>> = Mutex::new(HashSet::new());
         let rep2: Arc<Report> = rep.clone();
         h.state_oracle = Some(Box::new(move |w: &World| {
             let mut pool: Vec<Automerge> = w.docs.clone();
+            let mut pool_churned: Vec<bool> = w.churned.clone();
             // pairwise merges: cuts that mix concurrent branches only exist in merged documents
             for i in 0..w.docs.len() {
                 for j in (i + 1)..w.docs.len() {
@@ -90,11 +99,14 @@ pub fn run(args: &Args) -> i32 {
                     a.merge(&mut w.docs[j].clone())
                         .map_err(|e| Violation::new("merge-ok", "merge Err", format!("{:?}", e)))?;
                     pool.push(a);
+                    pool_churned.push(w.churned[i]);
                 }
             }
-            for d in pool.iter() {
-                // each distinct document (by heads) is checked once
-                if !seen.lock().unwrap().insert(hstr(&d.get_heads())) && !crate::util::replaying() {
+            for (pi, d) in pool.iter().enumerate() {
+                // each distinct document (by heads, and whether its actor table went through a churn) is checked once
+                let mut dkey = hstr(&d.get_heads());
+                dkey.push(format!("churned={}", pool_churned[pi]));
+                if !seen.lock().unwrap().insert(dkey) && !crate::util::replaying() {
                     continue;
                 }
                 let g = Graph::new(d.get_changes(&[]));
